@@ -7,7 +7,7 @@
 // the keys each scan of the map accepted and the schedule are written to the trace
 // and replayed on the model. An independent monitor checks at quiescence that the
 // accounted usage equals the bytes stored, and the bound of the property.
-use crate::conc::{err_code, exec_memc, field, install_hook, COp, Sched, MAX_STEPS, STEP_WATCHDOG, TID};
+use crate::conc::{err_code, exec_memc, field, install_hook, COp, Sched, TID};
 use crate::gen::{hex, op as opc, Rng};
 use crate::seq::Clock;
 use bytes::Bytes;
@@ -22,7 +22,6 @@ use memcrs::memory_store::store::MemoryStore;
 use std::fmt::Write as _;
 use std::sync::atomic::{AtomicU64, Ordering};
 use std::sync::{Arc, Mutex};
-use std::time::{Duration, Instant};
 
 /// Between RandomPolicy and MemoryStore: records, per scan of the map, the keys the
 /// predicate accepted (what the random generator and the iteration order decided).
@@ -268,42 +267,8 @@ pub fn run_case(case: &PolCase, choose: &mut dyn FnMut(&[usize]) -> usize) -> Po
             sched.finish(i);
         }));
     }
-    let mut order = Vec::new();
-    let mut stuck = None;
-    loop {
-        let t0 = Instant::now();
-        let mut st = sched.st.lock().unwrap();
-        loop {
-            let all_parked = st.grant.is_none() && (0..n).all(|i| st.finished[i] || st.waiting[i]);
-            if all_parked {
-                break;
-            }
-            let (g, to) = sched.cv.wait_timeout(st, Duration::from_millis(50)).unwrap();
-            st = g;
-            if to.timed_out() && t0.elapsed() > STEP_WATCHDOG {
-                let who = order.last().copied().unwrap_or(0);
-                stuck = Some((who, format!("step {} of thread {} did not return while the others were parked", order.len(), who)));
-                break;
-            }
-        }
-        if stuck.is_some() {
-            break;
-        }
-        let runnable: Vec<usize> = (0..n).filter(|i| !st.finished[*i]).collect();
-        if runnable.is_empty() {
-            break;
-        }
-        if order.len() >= MAX_STEPS {
-            let who = order.last().copied().unwrap_or(0);
-            stuck = Some((who, format!("no end after {} steps: thread {} keeps taking steps", MAX_STEPS, who)));
-            break;
-        }
-        let i = choose(&runnable);
-        order.push(i);
-        st.grant = Some(i);
-        sched.cv.notify_all();
-        drop(st);
-    }
+    let crate::conc::Driven { order: _, stuck } = crate::conc::drive(&sched, n, choose);
+    let order = crate::conc::model_schedule(&sched);
     install_hook(None);
     *sys.outer.sched.lock().unwrap() = None;
     if stuck.is_none() {
